@@ -7,6 +7,16 @@ _PENDING = ["C01", "C02", "C03", "C04", "C05", "C06", "C07", "C08", "C09", "C10"
 RELAY_NOTE = "Trusted: Coq kernel; the Go harness (event abstraction: the harness records the credential descriptor, attribute presence/size and relay port it used), pion/stun encoding and MESSAGE-INTEGRITY, Go timers under testing/synctest. One listener/one allocation manager is modelled; TCP relay connections are C16's model."
 
 CHECKS = [
+    {"property_id": "C09",
+     "text": "Coq theorems for EVERY byte string: the byte-level STUN decoder, the server's dispatch and the client's dispatch never reach the "
+             "Panic outcome (every index/slice is a checked operation in the model), the client's (handled, error) table, handlers only for "
+             "the documented class/method pairs, stream read loop progress and termination. Model/StunMsg.v is compared with pion/stun's "
+             "decoder and with HandleRequest / Client.HandleInbound on thousands of mutated, extreme and random inputs per run; live UDP and "
+             "stream listeners are fed the same inputs (arbitrarily segmented) followed by liveness probes from the same and another party, "
+             "with a real-time watchdog for spins.",
+     "note": "Partial by nature: code not modelled line by line (attribute getters inside handlers, logging, pion/stun internals beyond "
+             "Decode, the Go runtime) is covered by the correspondence/liveness runs only, not by a theorem.",
+     "technique": "Coq proof (checked-slice model, Panic unreachable) + differential correspondence against pion/stun Decode, server.HandleRequest and Client.HandleInbound, plus liveness probing"},
     {"property_id": "C12",
      "text": "Coq theorems on Model/ClientTx.v: the exact retransmission schedule (7 transmissions at t0 + rto, doubled, capped at 1.6 s; error "
              "after the seventh interval) for every rto > 0, never an eighth transmission and at most one result whatever the socket does, "
